@@ -379,6 +379,20 @@ def build_table():
     add('mutation-config:epochs', f"pg.Coalescent(n={{'a': n, 'b': 1}}, demography=pg.Demography({P2}, migration_rates={{('a', 'b'): {{0: 0.5, tt: 1.0}}, ('b', 'a'): {{0: 0.5}}}})).sfs.get_mutation_config([0] * n, th)",
         lambda rng: dict(n=rng.randint(1, 3), th=pos(rng), tt=pos(rng)), lambda rng: dict(n=rng.randint(1, 3), th=pos(rng), tt=0))
 
+    # more than one epoch because of a DISCRETISED event that starts at time 0 (no discrete change point anywhere)
+    def mc_disc_inv(rng):
+        return dict(n=rng.randint(2, 4), th=pos(rng), y=rng.choice([0.5, 1.0, 2.0]), g=rng.choice([-1.0, -0.25, 0.5, 1.0]), e=rng.choice([0.5, 1.0, 2.0]))
+
+    def mc_disc_val(rng):
+        return dict(n=rng.randint(2, 4), th=pos(rng), y=rng.choice([0.5, 1.0, 2.0]), g=0, e=1.0)
+    for dist, ln in (('.sfs', 'n - 1'), ('.fsfs', 'n // 2')):
+        for ev in ("pg.ExponentialPopSizeChanges(initial_size={'pop_0': y}, growth_rate=g, start_time=0, end_time=e)",
+                   "pg.ExponentialRateChanges(initial_rate={'pop_0': y}, growth_rate=g, start_time=0, end_time=e)",
+                   "pg.DiscretizedRateChange(trajectory=lambda u: y * (1 + abs(g) * u), start_time=0, end_time=e, pop='pop_0')"):
+            add('mutation-config:epochs',
+                f"pg.Coalescent(n=n, demography=pg.Demography(**(dict(events=[{ev}]) if g != 0 else dict(pop_sizes={{'pop_0': y}})))){dist}.get_mutation_config([0] * ({ln}), th)",
+                mc_disc_inv, mc_disc_val)
+
     # --- quantile level
     def q_inv(rng):
         x = rng.choice([neg(rng), -0.5, -1e-12, 1 + 10.0 ** rng.uniform(-12, 3), 1.5, 2, float('inf')])
